@@ -23,8 +23,10 @@ def check(ctx):
         n = M.shape[0]
         runs = [("eigsh_projector", None, None), ("stable", None, None), ("large", None, None), ("dispatch", None, 0), ("dispatch", None, 10 ** 6)]
         for t in (1, 2, 3, 7):
-            if t < n:
+            if t < n <= 200:
                 runs.append(("large", t, None))
+        if n > 200:
+            runs = [("eigsh_projector", None, None), ("stable", None, None), ("large", None, None), ("large", 400, None)]
         nontriv = np.isclose(np.linalg.eigvalsh(M), 1.0, atol=1e-6).any()
         for name, target, thr in runs:
             if name == "eigsh_projector" and kind.startswith(("spectrum01", "I-BtB")) and False:
